@@ -1,4 +1,4 @@
-import TarsModel.Proofs.AppShutdown
+import TarsModel.Proofs.ServerConnEarly
 
 /-!
 # C12 — Graceful shutdown answers every request already received
@@ -24,7 +24,8 @@ reported all connections closed, `false`: because its context expired).
 namespace Tars.ServerConn
 
 /-- the steps of the handler of request `i` of connection `c` -/
-def handlerActions (c i : Nat) : List Action := [.start c i, .fin c i, .write c i, .skip c i, .dec c i]
+def handlerActions (c i : Nat) : List Action :=
+  [.start c i, .fin c i, .finEarly c i, .write c i, .skip c i, .dec c i]
 
 /-- a connection whose goroutine exists and has not finished: `Accept` returned it, its deferred close
 has not run -/
@@ -72,9 +73,11 @@ closing to the receive loops, then for every pool configuration and every interl
 receive loops, handlers, pool and shutdown poller: once the server has closed a connection, no
 package that `conn.Read` returned is left in its receive buffer, and EVERY request handed to
 `handleConn` has been executed, its response written to the open connection and its handler
-finished. No atomicity hypothesis, no restriction to requests dispatched before the close. -/
-theorem C12_answered_before_close (cfg : Cfg) (hci : cfg.ci = .kickOnly) (acts : List Action) (s : State)
-    (hrun : run cfg acts = some s) (c : Nat) (k : Conn) (hk : s.conns[c]? = some k)
+finished. No atomicity hypothesis, no restriction to requests dispatched before the close. (`decEarly =
+false`: the handler decrements `numInvoke` after its write, as the code does; see
+`C12_early_decrement_counterexample`.) -/
+theorem C12_answered_before_close (cfg : Cfg) (hci : cfg.ci = .kickOnly) (hde : cfg.decEarly = false)
+    (acts : List Action) (s : State) (hrun : run cfg acts = some s) (c : Nat) (k : Conn) (hk : s.conns[c]? = some k)
     (hcl : k.srvClosed = true) : k.buf = [] ∧ ∀ q ∈ k.reqs, q.st = .done true := by
   have hr := run_reachable hrun
   have hI := ginv_reachable hr
@@ -82,7 +85,8 @@ theorem C12_answered_before_close (cfg : Cfg) (hci : cfg.ci = .kickOnly) (acts :
   have hpc := hK.closedPc hcl
   refine ⟨(hI.conns c k hk).bufNil (by simp [hpc]), ?_⟩
   intro q hq
-  exact hI.safe (by rw [hci]; simp) c k hk hcl q hq (hK.allOpen q hq)
+  exact safeEnd_done (hI.safe (by rw [hci]; simp) c k hk hcl q hq (hK.allOpen q hq))
+    (noearly_reachable hde hr c k hk q hq)
 
 /-- **Executed, without a pool**: for every variant and every interleaving, the handler of a request
 that `handleConn` has counted always has its next step enabled (goroutine per request: nothing can
@@ -100,7 +104,13 @@ theorem C12_handler_enabled (cfg : Cfg) (hpool : cfg.pool = none) (hdec : cfg.de
     exfalso
     exact nopool_never_handed cfg hpool (run_reachable hrun) c k hk q (mem_of_getElem? hq) hst
   | running =>
-    exact ⟨.fin c i, by simp [handlerActions], by simp [step, updConn, hk, cFin, cSetSt, hq, hst]⟩
+    cases hde : cfg.decEarly with
+    | false =>
+      exact ⟨.fin c i, by simp [handlerActions], by simp [step, hde, updConn, hk, cFin, cSetSt, hq, hst]⟩
+    | true =>
+      exact ⟨.finEarly c i, by simp [handlerActions], by simp [step, hde, updConn, hk, cFinEarly, hq, hst]⟩
+  | writePending => simp [hst, HSt.isDone] at hnd
+  | doneLate ok => simp [hst, HSt.isDone] at hnd
   | finished =>
     cases hnr : q.noReply with
     | false =>
@@ -144,7 +154,7 @@ configuration and every interleaving. (Clauses 3 and 4 — notification and retu
 `C12_notify_unregistered_counterexample` for what is missing there.) -/
 theorem C12_repaired_safety (pool : Option (Nat × Nat)) : C12_safety (repaired pool) := by
   intro acts s hrun
-  refine ⟨fun c k hk hcl => C12_answered_before_close _ rfl acts s hrun c k hk hcl, ?_⟩
+  refine ⟨fun c k hk hcl => C12_answered_before_close _ rfl rfl acts s hrun c k hk hcl, ?_⟩
   intro c i k q hk hq hnd
   exact ⟨fun hp => C12_handler_enabled _ hp rfl acts s hrun c i k q hk hq hnd,
          fun _ => C12_fixed_pool _ rfl acts s hrun c i k q hk hq hnd⟩
@@ -157,7 +167,7 @@ of `tcpHandler.handleConn`) from the source on every run; if either repair is re
 decrement is no longer deferred, this theorem no longer builds. -/
 theorem C12_current_tree (pool : Option (Nat × Nat)) : treeCfg pool = repaired pool := by
   simp [treeCfg, repaired, Consts.srvHandleWaitsBeforeRelease, Consts.srvCloseIdlesCloses,
-    Consts.srvInvokeDecDeferred]
+    Consts.srvInvokeDecDeferred, Consts.srvInvokeDecBeforeWrite]
 
 /-- hence the safety part of C12 holds for the model variant of the current tree -/
 theorem C12_current_tree_safety (pool : Option (Nat × Nat)) : C12_safety (treeCfg pool) := by
@@ -182,7 +192,12 @@ example : ∃ s, run (repaired none)
 
 /-- the handler of the request is over (it will touch neither the connection nor `numInvoke` again) -/
 def HSt.returned : HSt → Bool
-  | .done _ | .leaked => true
+  | .done _ | .leaked | .doneLate _ => true
+  | _ => false
+
+/-- the handler will still call `conn.Write` (or has not even decided that there is nothing to write) -/
+def HSt.writeDue : HSt → Bool
+  | .queued | .handed | .running | .finished | .writePending => true
   | _ => false
 
 /-- **Drained connections can be closed**: with the deferred decrement, for every interleaving,
@@ -190,7 +205,8 @@ def HSt.returned : HSt → Bool
 whatever path the handler took (response written, write failed, one-way request, empty response).
 So once the receive loop has returned and every handler of the connection has returned, the deferred
 drain-then-close is enabled: the server closes the connection. -/
-theorem C12_drain_enabled (cfg : Cfg) (hdec : cfg.decDeferred = true) (acts : List Action) (s : State)
+theorem C12_drain_enabled (cfg : Cfg) (hdec : cfg.decDeferred = true) (hde : cfg.decEarly = false)
+    (acts : List Action) (s : State)
     (hrun : run cfg acts = some s) (c : Nat) (k : Conn) (hk : s.conns[c]? = some k) :
     k.numInvoke = k.reqs.countP (fun q => !q.st.returned) ∧
     (k.rpc = .draining → (∀ q ∈ k.reqs, q.st.returned = true) → (step cfg s (.drainClose c)).isSome = true) := by
@@ -202,13 +218,63 @@ theorem C12_drain_enabled (cfg : Cfg) (hdec : cfg.decDeferred = true) (acts : Li
     apply List.countP_congr
     intro q hq
     have := hnl q hq
-    cases hst : q.st <;> simp_all [notDone, HSt.isDone, HSt.returned]
+    have he := noearly_reachable hde hr c k hk q hq
+    cases hst : q.st <;> simp_all [notDone, HSt.isDone, HSt.returned, HSt.early]
   refine ⟨hcount, ?_⟩
   intro hpc hall
   have hz : k.numInvoke = 0 := by
     rw [hcount, List.countP_eq_zero]
     intro q hq; simp [hall q hq]
   simp [step, updConn, hk, cDrainClose, hpc, hz]
+
+/-- **The drain condition implies that no write is pending.** The handler's order is invoke → write →
+decrement: for every interleaving, `numInvoke == 0` — what the receive loop's deferred function
+waits for before it closes the connection — means that no handler of the connection still has its
+`conn.Write` before it (none is queued, running, or between `invoke` and `Write`), however long
+those writes were blocked by a client that does not read. -/
+theorem C12_drain_no_write_pending (cfg : Cfg) (hde : cfg.decEarly = false) (acts : List Action) (s : State)
+    (hrun : run cfg acts = some s) (c : Nat) (k : Conn) (hk : s.conns[c]? = some k)
+    (hz : k.numInvoke = 0) : ∀ q ∈ k.reqs, q.st.writeDue = false := by
+  have hr := run_reachable hrun
+  have hki := (ginv_reachable hr).conns c k hk
+  intro q hq
+  have hc : k.reqs.countP notDone = 0 := by rw [← hki.count]; exact hz
+  have hnd := countP_zero_all notDone k.reqs hc q hq
+  have he := noearly_reachable hde hr c k hk q hq
+  cases hst : q.st <;> simp_all [notDone, HSt.isDone, HSt.writeDue, HSt.early]
+
+/-- the current code with `numInvoke--` directly after `invoke`, before the write -/
+def earlyCfg : Cfg := { repaired none with decDeferred := false, decEarly := true }
+
+/-- **The early decrement.** One request: read, counted, invoked; the handler decrements `numInvoke`
+and is then blocked in `conn.Write` (the client does not read). `Shutdown`: the close message is
+queued behind it, the receive loop is woken and returns; its deferred function sees `numInvoke == 0`
+and closes the connection; the handler's write fails. The request was read on the open connection and
+is never answered (the client gets EOF without its response; in the model a `conn.Write` is one step, so
+the close message written before the close is delivered — on the real socket it is stuck behind the
+blocked response and lost as well). -/
+theorem C12_early_decrement_counterexample :
+    ∃ s, run earlyCfg
+        [.connect, .accept 0, .register 0, .stamp 0, .send 0 5, .read 0 1, .dispatch 0, .start 0 0,
+         .finEarly 0 0, .stamp 0, .shutdownCall, .setClosed, .acceptExit, .onShutdownRet, .ciBegin,
+         .ciVisit 0, .ciEnd, .readErr 0 false, .drainClose 0, .lateWrite 0 0, .recvMsg 0, .recvEof 0] = some s ∧
+      (s.conns.map fun k => (k.srvClosed, k.numInvoke, k.got, k.sawEof)) = [(true, 0, [], true)] ∧
+      (s.conns.map fun k => k.reqs.map (fun q => (q.dispOpen, q.st))) = [[(true, .doneLate false)]] ∧
+      ¬ C12_safety earlyCfg := by
+  have hrun : ∃ s, run earlyCfg
+        [.connect, .accept 0, .register 0, .stamp 0, .send 0 5, .read 0 1, .dispatch 0, .start 0 0,
+         .finEarly 0 0, .stamp 0, .shutdownCall, .setClosed, .acceptExit, .onShutdownRet, .ciBegin,
+         .ciVisit 0, .ciEnd, .readErr 0 false, .drainClose 0, .lateWrite 0 0, .recvMsg 0, .recvEof 0] = some s := ⟨_, rfl⟩
+  obtain ⟨s, hs⟩ := hrun
+  have e := hs
+  simp only [run, earlyCfg, repaired] at e
+  have hse : s = _ := (Option.some.inj e).symm
+  refine ⟨s, hs, by subst hse; decide, by subst hse; decide, ?_⟩
+  intro hsafe
+  have h1 := (hsafe _ s hs).1
+  subst hse
+  have := (h1 0 _ rfl (by decide)).2 { id := 5, st := .doneLate false, dispOpen := true } (by decide)
+  simp at this
 
 /-- the current code with the decrement as the handler's last statement instead of a `defer` -/
 def leakCfg (pool : Option (Nat × Nat)) : Cfg := { repaired pool with decDeferred := false }
@@ -345,7 +411,8 @@ theorem C12_app_adapter_answered (pool : Option (Nat × Nat)) (n : Nat) (acts : 
   have hpc := hK.closedPc hcl
   refine ⟨(hI.conns c k hk).bufNil (by simp [hpc]), ?_⟩
   intro q hq
-  exact hI.safe (by simp [repaired]) c k hk hcl q hq (hK.allOpen q hq)
+  exact safeEnd_done (hI.safe (by simp [repaired]) c k hk hcl q hq (hK.allOpen q hq))
+    (noearly_reachable (cfg := repaired pool) rfl hr c k hk q hq)
 
 /-- **The captured range variable.** If the goroutine's function literal captures the loop variable
 (one variable per loop with `go < 1.22` in go.mod), then with two adapters: both iterations run, then
@@ -388,10 +455,12 @@ response has been written to the open connection, and its handler has finished.
 What is missing for clause 1 of `C12_full`: requests that were read but not yet counted when an
 (atomic) `CloseIdles` closed the connection (`C12_undispatched_counterexample`), and the real,
 non-atomic `CloseIdles` (`C12_toctou_counterexample`). -/
-theorem C12_safety_atomic_partial (cfg : Cfg) (hci : cfg.ci ≠ .asFound) (acts : List Action) (s : State)
+theorem C12_safety_atomic_partial (cfg : Cfg) (hci : cfg.ci ≠ .asFound) (hde : cfg.decEarly = false)
+    (acts : List Action) (s : State)
     (hrun : run cfg acts = some s) (c : Nat) (k : Conn) (hk : s.conns[c]? = some k)
     (hcl : k.srvClosed = true) : ∀ q ∈ k.reqs, q.dispOpen = true → q.st = .done true :=
-  (ginv_reachable (run_reachable hrun)).safe hci c k hk hcl
+  fun q hq hd => safeEnd_done ((ginv_reachable (run_reachable hrun)).safe hci c k hk hcl q hq hd)
+    (noearly_reachable hde (run_reachable hrun) c k hk q hq)
 
 /-- **C12 without a worker pool, if the as-found `CloseIdles` were atomic** (the partial theorem of
 DESIGN §6, about the code before the D16 repair; for the current code it is superseded by
@@ -402,14 +471,14 @@ with respect to `C12_full` for that code: requests read but not yet counted
 (`C12_undispatched_counterexample`), the real non-atomic `CloseIdles` (`C12_toctou_counterexample`),
 the worker pool (`C12_pool_counterexample`). -/
 theorem C12_nopool_partial (cfg : Cfg) (hpool : cfg.pool = none) (hci : cfg.ci = .atomic)
-    (hdec : cfg.decDeferred = true)
+    (hdec : cfg.decDeferred = true) (hde : cfg.decEarly = false)
     (acts : List Action) (s : State) (hrun : run cfg acts = some s)
     (c : Nat) (k : Conn) (hk : s.conns[c]? = some k) :
     (∀ (i : Nat) (q : Req), k.reqs[i]? = some q → q.st.isDone = false →
         ∃ a ∈ handlerActions c i, (step cfg s a).isSome = true) ∧
     (k.srvClosed = true → ∀ q ∈ k.reqs, q.dispOpen = true → q.st = .done true) :=
   ⟨fun i q hq hnd => C12_handler_enabled cfg hpool hdec acts s hrun c i k q hk hq hnd,
-   fun hcl => C12_safety_atomic_partial cfg (by rw [hci]; simp) acts s hrun c k hk hcl⟩
+   fun hcl => C12_safety_atomic_partial cfg (by rw [hci]; simp) hde acts s hrun c k hk hcl⟩
 
 /-- non-vacuity of `C12_nopool_partial`: two pipelined requests, shutdown while both handlers run, an
 atomic `CloseIdles` pass that finds the connection busy, the receiver's drain-then-close: the
